@@ -19,113 +19,7 @@
 #include <vector>
 #include <atomic>
 
-namespace shim
-{
-constexpr int NT = 2;
-struct Clock { unsigned c[NT]{}; };
-inline Clock join(Clock a, Clock const& b) { for (int i = 0; i < NT; ++i) a.c[i] = std::max(a.c[i], b.c[i]); return a; }
-inline bool leq(Clock const& a, Clock const& b) { for (int i = 0; i < NT; ++i) if (a.c[i] > b.c[i]) return false; return true; }
-inline int g_thr = -1;                       // -1: set-up (constructor stores precede both threads)
-inline Clock g_clk[NT];
-inline std::deque<long> g_choices;           // message indexes for the next loads of named objects (0 = latest)
-inline bool g_bad_choice = false;
-inline std::ofstream g_out;
-inline std::map<void const*, std::string> g_names;
-inline bool is_acq(std::memory_order m) { return m == std::memory_order_acquire || m == std::memory_order_acq_rel || m == std::memory_order_seq_cst || m == std::memory_order_consume; }
-inline bool is_rel(std::memory_order m) { return m == std::memory_order_release || m == std::memory_order_acq_rel || m == std::memory_order_seq_cst; }
-inline char const* mo_name(std::memory_order m)
-{
-  switch (m)
-  {
-  case std::memory_order_relaxed: return "rlx";
-  case std::memory_order_acquire: case std::memory_order_consume: return "acq";
-  case std::memory_order_release: return "rel";
-  default: return "ar";
-  }
-}
-inline std::string name_of(void const* p) { auto it = g_names.find(p); return it == g_names.end() ? std::string{} : it->second; }
-}
-
-namespace std
-{
-template <typename T>
-struct verif_atomic
-{
-  struct Msg { T val; shim::Clock rel; shim::Clock ev; };
-  std::vector<Msg> h;
-  size_t view[shim::NT]{};
-  verif_atomic() noexcept { h.push_back({T{}, {}, {}}); }
-  verif_atomic(T v) noexcept { h.push_back({v, {}, {}}); }
-  verif_atomic(verif_atomic const&) = delete;
-  verif_atomic& operator=(verif_atomic const&) = delete;
-  static long long as_ll(T v)
-  {
-    if constexpr (std::is_pointer_v<T>) return reinterpret_cast<long long>(v);
-    else return static_cast<long long>(v);
-  }
-  size_t lo(int t) const
-  {
-    size_t m = view[t];
-    for (size_t j = 0; j < h.size(); ++j) if (shim::leq(h[j].ev, shim::g_clk[t]) && j > m) m = j;
-    return m;
-  }
-  T load(std::memory_order mo = std::memory_order_seq_cst) const noexcept
-  {
-    auto* self = const_cast<verif_atomic*>(this);
-    if (shim::g_thr < 0) return h.back().val;
-    int const t = shim::g_thr;
-    std::string const nm = shim::name_of(this);
-    size_t idx = h.size() - 1;
-    if ((nm == "W" || nm == "V") && !shim::g_choices.empty())     // the script chooses for the writer position and the flag
-    {
-      long c = shim::g_choices.front();
-      shim::g_choices.pop_front();
-      if (c > 0)
-      {
-        idx = static_cast<size_t>(c - 1);
-        if (idx >= h.size() || idx < lo(t)) { shim::g_bad_choice = true; idx = h.size() - 1; }
-      }
-    }
-    self->view[t] = idx;
-    if (shim::is_acq(mo)) shim::g_clk[t] = shim::join(shim::g_clk[t], h[idx].rel);
-    if (!nm.empty())
-      shim::g_out << "{\"e\":\"acc\",\"t\":" << t << ",\"obj\":\"" << nm << "\",\"op\":\"load\",\"mo\":\"" << shim::mo_name(mo)
-                  << "\",\"idx\":" << (idx + 1) << ",\"val\":" << as_ll(h[idx].val) << ",\"n\":" << h.size() << "}\n";
-    return h[idx].val;
-  }
-  void push(T v, bool rel, shim::Clock const& carry)
-  {
-    int const t = shim::g_thr;
-    ++shim::g_clk[t].c[t];
-    h.push_back({v, rel ? shim::join(carry, shim::g_clk[t]) : carry, shim::g_clk[t]});
-    view[t] = h.size() - 1;
-  }
-  void store(T v, std::memory_order mo = std::memory_order_seq_cst) noexcept
-  {
-    if (shim::g_thr < 0) { h.back().val = v; return; }
-    push(v, shim::is_rel(mo), shim::Clock{});
-    std::string const nm = shim::name_of(this);
-    if (!nm.empty())
-      shim::g_out << "{\"e\":\"acc\",\"t\":" << shim::g_thr << ",\"obj\":\"" << nm << "\",\"op\":\"store\",\"mo\":\"" << shim::mo_name(mo)
-                  << "\",\"idx\":" << h.size() << ",\"val\":" << as_ll(v) << "}\n";
-  }
-  template <typename F>
-  T rmw(F f, std::memory_order mo) noexcept
-  {
-    if (shim::g_thr < 0) { T o = h.back().val; h.back().val = f(o); return o; }
-    int const t = shim::g_thr;
-    Msg const m = h.back();
-    if (shim::is_acq(mo)) shim::g_clk[t] = shim::join(shim::g_clk[t], m.rel);
-    push(f(m.val), shim::is_rel(mo), m.rel);
-    return m.val;
-  }
-  operator T() const noexcept { return load(); }
-  T operator=(T v) noexcept { store(v); return v; }
-  T exchange(T v, std::memory_order mo = std::memory_order_seq_cst) noexcept { return rmw([v](T) { return v; }, mo); }
-  T fetch_add(T v, std::memory_order mo = std::memory_order_seq_cst) noexcept { return rmw([v](T o) { return static_cast<T>(o + v); }, mo); }
-  T fetch_sub(T v, std::memory_order mo = std::memory_order_seq_cst) noexcept { return rmw([v](T o) { return static_cast<T>(o - v); }, mo); }
-};
-} // namespace std
+#include "shim_ra.h"
 
 #include "quill/backend/ThreadUtilities.h"
 #define atomic verif_atomic
@@ -195,7 +89,8 @@ int main(int argc, char** argv)
       {
         long iw = 0;
         ss >> iw;
-        shim::g_choices.assign(1, iw);
+        shim::g_choices.clear();
+        shim::g_choices["W"].push_back(iw);
         long n = 0;
         // consume everything the chosen writer position makes visible, without a second load of the position
         while (true)
@@ -216,8 +111,8 @@ int main(int argc, char** argv)
         long iv = 0, iw = 0;
         ss >> iv >> iw;
         shim::g_choices.clear();
-        shim::g_choices.push_back(iv);
-        shim::g_choices.push_back(iw);
+        shim::g_choices["V"].push_back(iv);
+        shim::g_choices["W"].push_back(iw);
         // the predicate of BackendWorker::_cleanup_invalidated_thread_contexts (the transit buffer is empty here: everything
         // read has been processed)
         bool const valid = tc->is_valid();
